@@ -545,6 +545,20 @@ CORPUS += [
 
 CORPUS += [
     # ---------------------------------------------------------------- C18
+    V("C18", "fjsp-one-machine-short", "rl4co/envs/scheduling/fjsp/generator.py", 'ma_seq_per_ops <= n_eligible_per_ops[..., None]', 'ma_seq_per_ops < n_eligible_per_ops[..., None]', 'C18.i'),
+    V("C18", "fjsp-counter-from-zero", "rl4co/envs/scheduling/fjsp/generator.py", 'torch.arange(1, self.num_mas + 1)[None, None]', 'torch.arange(0, self.num_mas)[None, None]', 'C18.i'),
+    V("C18", "fjsp-counter-short", "rl4co/envs/scheduling/fjsp/generator.py", 'torch.arange(1, self.num_mas + 1)[None, None]', 'torch.arange(1, self.num_mas)[None, None]', 'C18.i'),
+    V("C18", "fjsp-shuffle-across-operations", "rl4co/envs/scheduling/fjsp/generator.py", 'ma_ops_edges_unshuffled.gather(2, idx)', 'ma_ops_edges_unshuffled.gather(1, idx)', 'C18.i'),
+    V("C18", "fjsp-max-eligible-exclusive", "rl4co/envs/scheduling/fjsp/generator.py", 'self.max_eligible_ma_per_op + 1,', 'self.max_eligible_ma_per_op,', 'C18.i'),
+    V("C18", "fjsp-padded-ops-eligible", "rl4co/envs/scheduling/fjsp/generator.py", '        n_eligible_per_ops[pad_mask] = 0\n', '', 'C18.i'),
+    V("C18", "fjsp-proc-time-above-max", "rl4co/envs/scheduling/fjsp/generator.py", 'self.max_processing_time + 1,\n                size', 'self.max_processing_time + 2,\n                size', 'C18.i'),
+    V("C18", "fjsp-low-above-high", "rl4co/envs/scheduling/fjsp/generator.py", '(proc_time_means * (1 - 0.2)).round().unsqueeze(1),', '(proc_time_means * (1 + 0.3)).round().unsqueeze(1),', 'C18.i'),
+    V("C18", "fjsp-zero-proc-time-default", "rl4co/envs/scheduling/fjsp/generator.py", 'min_processing_time: int = 1,', 'min_processing_time: int = 0,', 'C18.i'),
+    V("C18", "eq-fjsp-indicator-flipped", "rl4co/envs/scheduling/fjsp/generator.py", 'ma_seq_per_ops <= n_eligible_per_ops[..., None]', 'n_eligible_per_ops[..., None] >= ma_seq_per_ops', None),
+    V("C18", "eq-fjsp-gather-last-axis", "rl4co/envs/scheduling/fjsp/generator.py", 'ma_ops_edges_unshuffled.gather(2, idx)', 'ma_ops_edges_unshuffled.gather(-1, idx)', None),
+    V("C18", "eq-fjsp-argsort-dim", "rl4co/envs/scheduling/fjsp/generator.py", 'torch.rand_like(ma_ops_edges_unshuffled).argsort()', 'torch.rand_like(ma_ops_edges_unshuffled).argsort(dim=-1)', None),
+    V("C18", "eq-fjsp-wider-low", "rl4co/envs/scheduling/fjsp/generator.py", '(proc_time_means * (1 - 0.2)).round().unsqueeze(1),', '(proc_time_means * (1 - 0.2)).round().unsqueeze(1) - 1,', None),
+    V("C18", "eq-fjsp-mean-inclusive", "rl4co/envs/scheduling/fjsp/generator.py", 'self.min_processing_time, self.max_processing_time, (bs, n_ops_max)', 'self.min_processing_time, self.max_processing_time + 1, (bs, n_ops_max)', None),
     V("C18", "cvrptw-repair-clamped-at-zero", "rl4co/envs/routing/cvrptw/generator.py", 'min_tmp[mask] = torch.max(\n                dist[mask].int(), min_tmp[mask] - 1\n            )', 'min_tmp[mask] = torch.clamp(min_tmp[mask] - 1, min=0)', 'C18.h'),
     V("C18", "cvrptw-repair-unclamped", "rl4co/envs/routing/cvrptw/generator.py", 'min_tmp[mask] = torch.max(\n                dist[mask].int(), min_tmp[mask] - 1\n            )', 'min_tmp[mask] = min_tmp[mask] - 1', 'C18.h'),
     V("C18", "cvrptw-start-from-zero", "rl4co/envs/routing/cvrptw/generator.py", 'min_ts = (dist + (upper_bound - dist) * ts_1).int()', 'min_ts = (upper_bound * ts_1).int()', 'C18.h'),
